@@ -220,3 +220,226 @@ func OnceFunc(f func()) func() {
 	var o Once
 	return func() { o.Do(f) }
 }
+
+// Map: sync.Map. Under an execution every operation is a scheduling point (each is atomic, as in
+// the real type); iteration order of Range is insertion order (deterministic).
+type Map struct {
+	real sync.Map
+	keys []any
+	vals map[any]any
+}
+
+func (m *Map) point(e *vsched.Exec, op string) {
+	e.Point("atomic", nil, "Map."+op)
+	if m.vals == nil {
+		m.vals = map[any]any{}
+	}
+}
+
+func (m *Map) Load(key any) (value any, ok bool) {
+	e := vsched.Cur()
+	if e == nil {
+		return m.real.Load(key)
+	}
+	m.point(e, "Load")
+	value, ok = m.vals[key]
+	return
+}
+
+func (m *Map) Store(key, value any) {
+	e := vsched.Cur()
+	if e == nil {
+		m.real.Store(key, value)
+		return
+	}
+	m.point(e, "Store")
+	if _, ok := m.vals[key]; !ok {
+		m.keys = append(m.keys, key)
+	}
+	m.vals[key] = value
+}
+
+func (m *Map) LoadOrStore(key, value any) (actual any, loaded bool) {
+	e := vsched.Cur()
+	if e == nil {
+		return m.real.LoadOrStore(key, value)
+	}
+	m.point(e, "LoadOrStore")
+	if v, ok := m.vals[key]; ok {
+		return v, true
+	}
+	m.keys = append(m.keys, key)
+	m.vals[key] = value
+	return value, false
+}
+
+func (m *Map) del(key any) {
+	delete(m.vals, key)
+	for i, k := range m.keys {
+		if k == key {
+			m.keys = append(m.keys[:i:i], m.keys[i+1:]...)
+			break
+		}
+	}
+}
+
+func (m *Map) LoadAndDelete(key any) (value any, loaded bool) {
+	e := vsched.Cur()
+	if e == nil {
+		return m.real.LoadAndDelete(key)
+	}
+	m.point(e, "LoadAndDelete")
+	value, loaded = m.vals[key]
+	if loaded {
+		m.del(key)
+	}
+	return
+}
+
+func (m *Map) Delete(key any) { m.LoadAndDelete(key) }
+
+func (m *Map) Swap(key, value any) (previous any, loaded bool) {
+	e := vsched.Cur()
+	if e == nil {
+		return m.real.Swap(key, value)
+	}
+	m.point(e, "Swap")
+	previous, loaded = m.vals[key]
+	if !loaded {
+		m.keys = append(m.keys, key)
+	}
+	m.vals[key] = value
+	return
+}
+
+func (m *Map) CompareAndSwap(key, old, new any) bool {
+	e := vsched.Cur()
+	if e == nil {
+		return m.real.CompareAndSwap(key, old, new)
+	}
+	m.point(e, "CompareAndSwap")
+	if v, ok := m.vals[key]; ok && v == old {
+		m.vals[key] = new
+		return true
+	}
+	return false
+}
+
+func (m *Map) CompareAndDelete(key, old any) bool {
+	e := vsched.Cur()
+	if e == nil {
+		return m.real.CompareAndDelete(key, old)
+	}
+	m.point(e, "CompareAndDelete")
+	if v, ok := m.vals[key]; ok && v == old {
+		m.del(key)
+		return true
+	}
+	return false
+}
+
+func (m *Map) Range(f func(key, value any) bool) {
+	e := vsched.Cur()
+	if e == nil {
+		m.real.Range(f)
+		return
+	}
+	m.point(e, "Range")
+	for _, k := range append([]any(nil), m.keys...) {
+		v, ok := m.vals[k]
+		if !ok {
+			continue
+		}
+		if !f(k, v) {
+			return
+		}
+	}
+}
+
+func (m *Map) Clear() {
+	e := vsched.Cur()
+	if e == nil {
+		m.real.Clear()
+		return
+	}
+	m.point(e, "Clear")
+	m.keys, m.vals = nil, map[any]any{}
+}
+
+// Cond: sync.Cond. Wait releases L, blocks until a Signal/Broadcast issued after it started
+// waiting, and re-acquires L.
+type Cond struct {
+	L       Locker
+	real    *sync.Cond
+	seq     int64 // broadcasts so far
+	tickets []*int64
+}
+
+func NewCond(l Locker) *Cond { return &Cond{L: l} }
+
+func (c *Cond) realCond() *sync.Cond {
+	if c.real == nil {
+		c.real = sync.NewCond(c.L)
+	}
+	return c.real
+}
+
+func (c *Cond) Wait() {
+	e := vsched.Cur()
+	if e == nil {
+		c.realCond().Wait()
+		return
+	}
+	woken := new(int64)
+	c.tickets = append(c.tickets, woken)
+	c.L.Unlock()
+	e.Point("cond", func() bool { return *woken != 0 }, "Cond.Wait")
+	c.L.Lock()
+}
+
+func (c *Cond) Signal() {
+	e := vsched.Cur()
+	if e == nil {
+		c.realCond().Signal()
+		return
+	}
+	e.Point("cond", nil, "Cond.Signal")
+	if len(c.tickets) > 0 {
+		*c.tickets[0] = 1
+		c.tickets = c.tickets[1:]
+	}
+}
+
+func (c *Cond) Broadcast() {
+	e := vsched.Cur()
+	if e == nil {
+		c.realCond().Broadcast()
+		return
+	}
+	e.Point("cond", nil, "Cond.Broadcast")
+	for _, t := range c.tickets {
+		*t = 1
+	}
+	c.tickets = nil
+}
+
+// OnceValue / OnceValues: as in package sync, built on Once.
+
+func OnceValue[T any](f func() T) func() T {
+	var o Once
+	var v T
+	return func() T {
+		o.Do(func() { v = f() })
+		return v
+	}
+}
+
+func OnceValues[T1, T2 any](f func() (T1, T2)) func() (T1, T2) {
+	var o Once
+	var a T1
+	var b T2
+	return func() (T1, T2) {
+		o.Do(func() { a, b = f() })
+		return a, b
+	}
+}
